@@ -151,6 +151,39 @@ def get_schedule_leaves_nothing_behind():
         cover("lock was obtained")
 
 
+def full_sched_to_fragz_stub(full_schedule):
+    return ["AA", "BB"]
+
+
+def set_schedule_fragment_stub(*args):
+    return opaque("cmd")
+
+
+class PassThroughSchema:
+    def __call__(self, x):
+        return x
+
+
+@harness("C18", stubs={S.full_sched_to_fragz: full_sched_to_fragz_stub},
+         subst={S.Command.set_schedule_fragment.__func__: set_schedule_fragment_stub})
+def failed_write_leaves_nothing_behind():
+    """Schedule.set_schedule: if writing any fragment (or the version query that follows) fails or is
+    cancelled, the zone lock is released and the zone's cached schedule is still the old one --
+    it never keeps a schedule the controller did not accept."""
+    tcs = FakeTcs()
+    old = {"zone_idx": "01", "schedule": ["old"]}
+    sch = new_object(S.Schedule, idx="01", tcs=tcs, ctl=FakeCtl(), _gwy=FakeGwy(), _full_schedule=old, _fragments=[],
+                     _global_ver=7, _sched_ver=7)
+    new = [{"day_of_week": d, "switchpoints": [{"time_of_day": "06:30", "heat_setpoint": 21.0}]} for d in range(7)]
+    o = outcome(sch.set_schedule, new)
+    check(tcs.zone_lock_idx is None, "no zone lock is left behind by set_schedule, however it ends")
+    if not o.ok:
+        cover("the write failed")
+        check(sch._full_schedule is old, "a failed write leaves the cached schedule as it was")
+    else:
+        check(sch._full_schedule is not old and sch._sched_ver == sch._global_ver, "a completed write caches the new schedule at the version read back")
+
+
 def _releases_in_finally(fn, obtain="_obtain_lock", release="_release_lock"):
     """Syntactic: every statement that follows the `await ..._obtain_lock(...)` statement in the
     function body is a Try whose finalbody calls ..._release_lock(), or comes after such a Try."""
